@@ -1,9 +1,11 @@
 import ExaModel.Props.C02
+import ExaModel.Props.C02Exa
 #print axioms Exa.Props.C02.wire_left_inverse
 #print axioms Exa.Props.C02.wire_attr_left_inverse
 #print axioms Exa.Props.C02.wire_nlri_left_inverse
 #print axioms Exa.Props.C02.decode_consumes_all
 #print axioms Exa.Props.C02.merge_rfc6793
+#print axioms Exa.Props.C02.merge_discards_as4_confed
 #print axioms Exa.Props.C02.merge_empty_as4
 #print axioms Exa.Props.C02.eor_iff
 #print axioms Exa.Props.C02.report_announce_iff
@@ -13,3 +15,9 @@ import ExaModel.Props.C02
 #print axioms Exa.Props.C02.aigp_absent_when_session_disabled
 #print axioms Exa.Props.C02.aigp_reported_when_session_enabled
 #print axioms Exa.Props.C02.aigp_changes_type_26_only
+#print axioms Exa.Props.C02Exa.table_zero
+#print axioms Exa.Props.C02Exa.exa_decoder_agrees_reference_partial
+#print axioms Exa.Props.C02Exa.exa_decodes_wellformed
+#print axioms Exa.Props.C02Exa.exa_nothing_dropped
+#print axioms Exa.Props.C02Exa.exa_nothing_invented
+#print axioms Exa.Props.C02Exa.exa_merge_is_rfc6793
